@@ -176,6 +176,7 @@ impl<'input> Parser<'input> {
             .borrow_mut()
             .start_standalone(SyntaxKind::SELECTION_SET);
         grammar::selection::field_set(&mut self);
+        self.expect_end_of_input("expected the selection set to end here");
 
         let builder = Rc::try_unwrap(self.builder)
             .expect("More than one reference to builder left")
@@ -203,6 +204,7 @@ impl<'input> Parser<'input> {
             .borrow_mut()
             .start_standalone(SyntaxKind::NAMED_TYPE);
         grammar::ty::ty(&mut self);
+        self.expect_end_of_input("expected the type to end here");
 
         let builder = Rc::try_unwrap(self.builder)
             .expect("More than one reference to builder left")
@@ -216,6 +218,15 @@ impl<'input> Parser<'input> {
             | syntax_tree::SyntaxTreeWrapper::Document(_) => {
                 unreachable!("parse_type constructor can only construct a type")
             }
+        }
+    }
+
+    /// Standalone entry points must consume their whole input: report any token that is left,
+    /// other than ignored ones.
+    fn expect_end_of_input(&mut self, message: &str) {
+        self.skip_ignored();
+        if !matches!(self.peek(), None | Some(TokenKind::Eof)) {
+            self.err(message);
         }
     }
 
